@@ -524,6 +524,14 @@ pub fn c14_wallclock(run: &Run) -> (u64, u64) {
         (vec![hash(big), "isready".into(), kiwi.clone(), "go depth 9".into(), "ucinewgame".into(), "isready".into(), kiwi.clone()], "go wtime 250 btime 250 winc 10 binc 10", 250),
         (vec![kiwi.clone(), "go depth 9".into(), hash(big), "isready".into(), kiwi.clone()], "go wtime 200 btime 200", 200),
         (vec![hash(big), "isready".into(), sp.clone(), "go depth 8".into(), sp.clone()], "go wtime 200 btime 200 movestogo 1", 200),
+        // the 256th search of a session on the largest table
+        ({
+            let mut v = vec![hash(big), "isready".into(), sp.clone()];
+            for _ in 0..255 {
+                v.push("go depth 1".into());
+            }
+            v
+        }, "go wtime 200 btime 200", 200),
     ];
     let mut n = 0u64;
     for (prelude, go, clock_ms) in &scenarios {
@@ -550,6 +558,6 @@ pub fn c14_wallclock(run: &Run) -> (u64, u64) {
             run.violation("move-after-the-clock-ran-out", format!("wallclock|{}", lines.join(" ; ")), J::obj(vec![("kind", J::s("wallclock")), ("lines", J::Arr(lines.iter().map(|l| J::s(l.clone())).collect())), ("clock_ms", J::i(*clock_ms))]), format!("optimised build, [{}]: the best of eight attempts answered after {best:?} with {clock_ms} ms on the clock (calibration: a 100 ms search is timed as {cal:?})", lines.join(" ; ")));
         }
     }
-    run.family("E7-WALL-CLOCK", &format!("measurement (not an enumeration): 6 scenarios on the optimised binary (plain; first search after ucinewgame on a {big} MB table, empty and used; first search after a resize; used large table), clock 200-250 ms, best of up to eight attempts each must answer before the clock runs out"), n, n, true, "labelled measurement; real time cannot be enumerated");
+    run.family("E7-WALL-CLOCK", &format!("measurement (not an enumeration): 7 scenarios on the optimised binary (plain; first search after ucinewgame on a {big} MB table, empty and used; first search after a resize; used large table; the 256th search of a session), clock 200-250 ms, best of up to eight attempts each must answer before the clock runs out"), n, n, true, "labelled measurement; real time cannot be enumerated");
     (n, n)
 }
